@@ -1738,7 +1738,7 @@ func ExecDistinct(query *Query, current []any) ([]any, error) {
 	slice := make([]any, 0)
 	for _, item := range current {
 		sha256 := sha256.New()
-		_, err := sha256.Write([]byte(fmt.Sprintf("%v", item)))
+		_, err := sha256.Write([]byte(fmt.Sprintf("%#v", item)))
 		if err != nil {
 			return nil, err
 		}
